@@ -11,6 +11,7 @@ mod engine_t;
 mod framework;
 mod harness;
 mod lin;
+mod scn_close;
 mod scn_cont;
 mod scn_ctl;
 mod scn_exec;
@@ -18,6 +19,7 @@ mod scn_held;
 mod scn_hist;
 mod scn_life;
 mod scn_multi;
+mod scn_oldies;
 mod scn_own;
 mod payload;
 mod rng;
@@ -30,6 +32,8 @@ use std::sync::Arc;
 const RULE_T: &str = "one evaluation = one simulated run (workload, sizes, fault rates and schedule all drawn from run_seed = f(VERIF_SEED, property, run index)); a run is non-trivial if the scheduler preempted a thread inside an operation at least once; distinct = distinct context-switch signatures (hash of the sequence of (from-thread, to-thread, code site) over all context switches of the run), counted with a hash set merged across workers";
 
 const RULE_D: &str = "one evaluation = one simulated run under virtual time (tokio current-thread runtime with paused clock; workload, delays, limits, timeouts and the instants of close/cancel all drawn from run_seed = f(VERIF_SEED, property, run index)); the runtime is deterministic, so distinct = distinct generated workloads (hash of all workload parameters, counted with a hash set merged across workers); non-trivial = at least two pipeline items";
+
+const RULE_TD: &str = "two scenario families. (T) one evaluation = one simulated run (workload, sizes, fault rates and schedule all drawn from run_seed = f(VERIF_SEED, property, run index)); non-trivial = the scheduler preempted a thread inside an operation at least once; distinct = distinct context-switch signatures (hash of the sequence of (from-thread, to-thread, code site) over all context switches of the run). (D) one evaluation = one simulated run under virtual time (tokio current-thread runtime with paused clock); the runtime is deterministic, so distinct = distinct generated workloads (hash of all workload parameters); non-trivial = at least two events. Both counted with hash sets merged across workers and summed";
 
 const RULE_H: &str = "one evaluation = one single-threaded history (op sequence, channel kind, sizes, sequence origin all drawn from run_seed = f(VERIF_SEED, property, run index)) executed step by step against an executable reference model, and a second time from a sequence origin next to the u32 wrap where the scenario says so; distinct = distinct histories (hash of all parameters, hash set merged across workers); non-trivial = at least three operations";
 
@@ -57,15 +61,15 @@ fn registry(property: &str) -> Option<PropertyCheck> {
             checked_build: false,
         },
         "C06" => PropertyCheck {
-            parts: vec![Box::new(Part(Arc::new(scn_exec::ObjExec { property: "C06", multi: false }))), Box::new(Part(Arc::new(scn_exec::ObjExec { property: "C06", multi: true })))],
-            rule: RULE_D,
-            quick_s: 30,
+            parts: vec![Box::new(Part(Arc::new(scn_exec::ObjExec { property: "C06", multi: false }))), Box::new(Part(Arc::new(scn_exec::ObjExec { property: "C06", multi: true }))), Box::new(Part(Arc::new(scn_oldies::OldiesExec { property: "C06" }))), Box::new(Part(Arc::new(scn_close::CloseConc)))],
+            rule: RULE_TD,
+            quick_s: 44,
             thorough_s: 900,
             assumptions: vec![],
             checked_build: false,
         },
         "C11" => PropertyCheck { parts: vec![Box::new(Part(Arc::new(scn_exec::ExecRaw { property: "C11" })))], rule: RULE_D, quick_s: 20, thorough_s: 600, assumptions: vec![], checked_build: false },
-        "C12" => PropertyCheck { parts: vec![Box::new(Part(Arc::new(scn_exec::ExecRaw { property: "C12" }))), Box::new(Part(Arc::new(scn_exec::ObjExec { property: "C12", multi: false }))), Box::new(Part(Arc::new(scn_exec::ObjExec { property: "C12", multi: true })))], rule: RULE_D, quick_s: 20, thorough_s: 600, assumptions: vec![], checked_build: false },
+        "C12" => PropertyCheck { parts: vec![Box::new(Part(Arc::new(scn_exec::ExecRaw { property: "C12" }))), Box::new(Part(Arc::new(scn_exec::ObjExec { property: "C12", multi: false }))), Box::new(Part(Arc::new(scn_exec::ObjExec { property: "C12", multi: true }))), Box::new(Part(Arc::new(scn_oldies::OldiesExec { property: "C12" })))], rule: RULE_D, quick_s: 28, thorough_s: 600, assumptions: vec![], checked_build: false },
         "C13" => PropertyCheck { parts: vec![Box::new(Part(Arc::new(scn_cont::AllocConc)))], rule: RULE_T, quick_s: 25, thorough_s: 900, assumptions: vec![], checked_build: false },
         "C18" => PropertyCheck { parts: vec![Box::new(Part(Arc::new(scn_cont::RingLin { property: "C18", kinds: &scn_cont::STANDALONE })))], rule: RULE_T, quick_s: 25, thorough_s: 900, assumptions: vec![], checked_build: false },
         "C03" => PropertyCheck { parts: vec![Box::new(Part(Arc::new(scn_multi::C03)))], rule: RULE_T, quick_s: 25, thorough_s: 900, assumptions: vec![], checked_build: false },
@@ -74,7 +78,7 @@ fn registry(property: &str) -> Option<PropertyCheck> {
         "C15" => PropertyCheck { parts: vec![Box::new(Part(Arc::new(scn_hist::Hist { property: "C15", flavour: scn_hist::Flavour::WrapAround })))], rule: RULE_H, quick_s: 20, thorough_s: 600, assumptions: vec![], checked_build: true },
         "C16" => PropertyCheck { parts: vec![Box::new(Part(Arc::new(scn_hist::Hist { property: "C16", flavour: scn_hist::Flavour::Rejections }))), Box::new(Part(Arc::new(scn_held::RejectConc)))], rule: RULE_TH, quick_s: 40, thorough_s: 600, assumptions: vec![], checked_build: false },
         "C05" => PropertyCheck { parts: vec![Box::new(Part(Arc::new(scn_hist::Hist { property: "C05", flavour: scn_hist::Flavour::Teardown }))), Box::new(Part(Arc::new(scn_held::HeldConc)))], rule: RULE_TH, quick_s: 40, thorough_s: 900, assumptions: vec![], checked_build: false },
-        "C09" => PropertyCheck { parts: vec![Box::new(Part(Arc::new(scn_multi::C09)))], rule: RULE_T, quick_s: 25, thorough_s: 900, assumptions: vec![], checked_build: false },
+        "C09" => PropertyCheck { parts: vec![Box::new(Part(Arc::new(scn_multi::C09))), Box::new(Part(Arc::new(scn_oldies::OldiesExec { property: "C09" })))], rule: RULE_TD, quick_s: 32, thorough_s: 900, assumptions: vec![], checked_build: false },
         "C17" => PropertyCheck { parts: vec![Box::new(Part(Arc::new(scn_multi::C17)))], rule: RULE_T, quick_s: 25, thorough_s: 900, assumptions: vec![], checked_build: false },
         "C07" => PropertyCheck { parts: vec![Box::new(Part(Arc::new(scn_ctl::Cancel)))], rule: RULE_T, quick_s: 30, thorough_s: 900, assumptions: vec![], checked_build: false },
         "C20" => PropertyCheck { parts: vec![Box::new(Part(Arc::new(scn_ctl::Suspend)))], rule: RULE_T, quick_s: 30, thorough_s: 900, assumptions: vec![], checked_build: false },
